@@ -8,16 +8,19 @@ Model: `TLVerif/Codec/Random.lean` — `basictl.RandGenerator` over an explicit 
 generator decisions `FillRandom` depends on (`FieldX.recursive`, nat-field usage; exported per run by `go/hginfo`).
 Lemmas: `RandomLemmas.lean` (writers accept), `RandomTerm.lean` (termination).  Tie: `checks/C18.py` (`codec.rnd`).
 
-* `fill_terminates` — for **every** stream: on a reference-closed instance set satisfying the decidable guard
-  `Desc.fillGuard` (rank certificate for the references that do not pass an `IncreaseDepth` site; every body that can run
-  right after a *saturating* `IncreaseDepth` is `quiet`), the driver's recursion budget `fillFuel d` is never exhausted.
-  Measure: `(maxDepth − curDepth, rank)`; `fillTL1_term` also states the invariant "every call returns with
-  `curDepth`/`maxDepth` unchanged".  The `IncreaseDepth` sites assumed by the model are counted in the templates on
-  every run (`increase_sites`, T1).
-* The full-strength statement `FillAlwaysTerminates` is **false** for the generated code, three ways (all reproduced on
+* `fill_terminates`, `fill_preserves_depth` — for **every** stream: on a reference-closed instance set satisfying the
+  decidable guard `Desc.fillGuard` (rank certificate for the references that pass no `IncreaseDepth` site; what is still
+  followed once the depth limit is reached — unconditional fields, first variants, tuple elements — is a finite
+  recursion: `satFinite`), the driver's recursion budget `fillFuel d` is never exhausted and the generator returns with
+  `curDepth`/`maxDepth` exactly as it found them.  Measure: `(maxDepth − curDepth, rank)`, then the `satFinite` depth.
+  The `IncreaseDepth` sites assumed by the model are counted in the templates on every run (`increase_sites`, T1).
+  Since `IncreaseDepth` was made unconditional in the repository (fix of the former known finding C18-leak:
+  a saturating increase followed by the unconditional decrease lowered the depth) the guard no longer has to exclude
+  nested increase sites at the limit: `leak_shape_terminates` is the positive statement for the shape that used to
+  diverge, `increase_decrease_neutral` the one-line reason.
+* The full-strength statement `FillAlwaysTerminates` is still **false** for the generated code, two ways (reproduced on
   the real code by the check, known findings): `fill_diverges_nonproductive` (L8), `fill_diverges_union`
-  (`FillRandom` of a union never calls `IncreaseDepth`), `fill_diverges_leak` (`DecreaseDepth` after a saturated
-  `IncreaseDepth` lowers the depth; `saturated_increase_leaks` is the one-line reason).
+  (`FillRandom` of a union never calls `IncreaseDepth`).
 * `fill_valid` — whatever `FillRandom` returns is accepted by the TL1 writer, bare and boxed (never `.error .shape`,
   never `.error .desc`), under the decidable side conditions `Inst.fillOk`.
 * `fill_functional` — the value is a function of the stream (and of nothing else: the model takes no previous object;
@@ -105,11 +108,6 @@ theorem fill_preserves_depth (d : Desc) (gi : GenInfo) (rk : List Nat) (S : Nat 
   exact (fillTL1_term d gi rk S hcl hg.1.1 hg.1.2 hg.2 fuel (newRG src).maxDepth ty [] (newRG src) hS
     (by omega) (by omega) hfuel).2 v rg' h
 
-/-- the reason of the third counter-example, in one line: at the limit, an increase followed by a decrease lowers the depth -/
-theorem saturated_increase_leaks (rg : RG) (h : rg.cur = rg.maxDepth) (hp : 0 < rg.cur) : rg.inc.dec.cur = rg.cur - 1 := by
-  have e : rg.inc = rg := by unfold RG.inc; rw [if_neg (by simpa using h)]
-  rw [e]; unfold RG.dec; rw [if_pos (by omega)]
-
 /-! ### counter-examples to the full-strength statement -/
 
 namespace Ex
@@ -143,7 +141,7 @@ def rgAt (cur pos : Nat) : RG := { maxDepth := 5, cur := cur, src := ones, pos :
 
 end Ex
 
-/-- (L8) `loopA x:loopA`: no fuel suffices, for any stream — the recursion draws nothing and `IncreaseDepth` saturates -/
+/-- (L8) `loopA x:loopA`: no fuel suffices, for any stream — the recursion draws nothing, raising the depth does not stop it -/
 theorem loop_get : Codec.Ex.loopD.get? 0 = some (.struct { tag := 0x5, nparams := 0, fields := [ Codec.Ex.fld "x" 0 ] }) := rfl
 
 theorem loop_never_fills : ∀ (fuel : Nat) (rg : RG), fillTL1 Codec.Ex.loopD Ex.loopGi fuel 0 [] rg = .error .fuel := by
@@ -205,137 +203,25 @@ theorem fill_diverges_union : ¬ FillAlwaysTerminates := by
   rw [newRG_ones]
   exact (peano_never_fills fuel).1 1
 
-/-! the depth leak -/
+/-! the former depth leak (known finding C18-leak, repaired in the repository: `IncreaseDepth` no longer saturates) -/
 
-def Ex.leakInner : ArrayD := { isTuple := true, dynamic := false, count := 2, nparams := 0, elem := Codec.Ex.fld "" 0, hasTL2 := false }
-def Ex.leakOuter : ArrayD := { isTuple := true, dynamic := false, count := 2, nparams := 0, elem := Codec.Ex.fld "" 1, hasTL2 := false }
-def Ex.leakVec : ArrayD := { isTuple := false, dynamic := false, count := 0, nparams := 0, elem := Codec.Ex.fld "" 4, hasTL2 := false }
-def Ex.leakS : StructD := { tag := 0x3, nparams := 0, fields := [ Codec.Ex.fld "m" 2, Codec.Ex.fld "c" 3 ] }
+/-- an increase followed by a decrease is the identity at every depth, the limit included -/
+theorem increase_decrease_neutral (rg : RG) : rg.inc.dec.cur = rg.cur ∧ rg.inc.dec.maxDepth = rg.maxDepth := by
+  have := dec_inc (rg := rg) (rg2 := rg.inc) (RG.same_refl _)
+  exact ⟨this.1, this.2⟩
 
-theorem leak_get0 : Ex.leakD.get? 0 = some (.prim .i32) := rfl
-theorem leak_get1 : Ex.leakD.get? 1 = some (.array Ex.leakInner) := rfl
-theorem leak_get2 : Ex.leakD.get? 2 = some (.array Ex.leakOuter) := rfl
-theorem leak_get3 : Ex.leakD.get? 3 = some (.array Ex.leakVec) := rfl
-theorem leak_get4 : Ex.leakD.get? 4 = some (.struct Ex.leakS) := rfl
+/-- `leak m:(tuple (tuple int 2) 2) c:(vector leak)` — the shape that never terminated for half of the seeds —
+satisfies the guard … -/
+theorem leak_shape_guard : Ex.leakD.closed allInsts = true ∧
+    Ex.leakD.fillGuard Ex.noGi (Ex.leakD.computeFillRanks Ex.noGi) allInsts = true := by decide
 
-theorem rgAt_inc4 (p : Nat) : (Ex.rgAt 4 p).inc = Ex.rgAt 5 p := rfl
-theorem rgAt_inc5 (p : Nat) : (Ex.rgAt 5 p).inc = Ex.rgAt 5 p := rfl
-theorem rgAt_inc3 (p : Nat) : (Ex.rgAt 3 p).inc = Ex.rgAt 4 p := rfl
-theorem rgAt_dec5 (p : Nat) : (Ex.rgAt 5 p).dec = Ex.rgAt 4 p := rfl
-theorem rgAt_dec4 (p : Nat) : (Ex.rgAt 4 p).dec = Ex.rgAt 3 p := rfl
-theorem rgAt_int31 (c p : Nat) : (Ex.rgAt c p).int31 = (2147483647, Ex.rgAt c (p + 1)) := by
-  simp [RG.int31, RG.raw, Ex.rgAt, Ex.ones]
+/-- … hence terminates for every stream, leaving the depth as it was -/
+theorem leak_shape_terminates (src : Nat → Nat) (fuel : Nat) (hf : fillFuel Ex.leakD ≤ fuel) :
+    fillRandom Ex.leakD Ex.noGi fuel 4 src ≠ .error .fuel ∧
+      ∀ v rg', fillRandom Ex.leakD Ex.noGi fuel 4 src = .ok (v, rg') → rg'.cur = 0 :=
+  fill_terminates Ex.leakD Ex.noGi _ allInsts leak_shape_guard.1 leak_shape_guard.2 4 rfl rfl fuel hf src
 
-/-- the value of `m` -/
-def Ex.leakM : Val := .arr [.arr [.nat 2147483647, .nat 2147483647], .arr [.nat 2147483647, .nat 2147483647]]
-
-/-- filling `m:(tuple (tuple int 2) 2)` one below the limit: the inner `IncreaseDepth` saturates, the two `DecreaseDepth`
-bring the depth from 4 to 3 -/
-theorem leak_m (f pos : Nat) :
-    fillTL1 Ex.leakD Ex.noGi f 2 [] (Ex.rgAt 4 pos) = .error .fuel ∨
-    fillTL1 Ex.leakD Ex.noGi f 2 [] (Ex.rgAt 4 pos) = .ok (Ex.leakM, Ex.rgAt 3 (pos + 4)) := by
-  match f with
-  | 0 => left; rfl
-  | 1 => left; simp [fillTL1, leak_get2, Ex.leakOuter, Codec.Ex.fld, natArgVals, fillElemsWith]
-  | 2 =>
-    left
-    simp [fillTL1, leak_get2, leak_get1, Ex.leakOuter, Ex.leakInner, Codec.Ex.fld, natArgVals, fillElemsWith]
-  | f + 3 =>
-    right
-    simp [fillTL1, leak_get2, leak_get1, leak_get0, Ex.leakOuter, Ex.leakInner, Codec.Ex.fld, natArgVals, fillElemsWith,
-      fillPrim, rgAt_inc4, rgAt_inc5, rgAt_dec5, rgAt_dec4, rgAt_int31, Ex.leakM]
-
-theorem randomSize_ones4 (pos : Nat) : randomSize (Ex.rgAt 4 pos) = (1023, Ex.rgAt 4 (pos + 2)) := by
-  unfold randomSize
-  rw [randomUint_ones 4 pos (by decide)]
-  have : limitVal 4294967295 = 1023 := by decide
-  simp only [this]
-
-/-- at depth 4 of 5 the struct is entered again and again at depth 4: the vector never sees the limit -/
-theorem leak_never_fills : ∀ (fuel : Nat),
-    (∀ pos, fillTL1 Ex.leakD Ex.noGi fuel 4 [] (Ex.rgAt 4 pos) = .error .fuel) ∧
-    (∀ pos, fillTL1 Ex.leakD Ex.noGi fuel 3 [] (Ex.rgAt 3 pos) = .error .fuel) := by
-  intro fuel
-  induction fuel with
-  | zero => exact ⟨fun _ => rfl, fun _ => rfl⟩
-  | succ fuel ih =>
-    refine ⟨?_, ?_⟩
-    · intro pos
-      simp only [fillTL1, leak_get4]
-      rcases leak_m fuel pos with h | h
-      · simp [Ex.leakS, Codec.Ex.fld, fillFieldsWith, fieldPresent, natArgVals, structGx, fillValue, Ex.noGi, h]
-      · simp [Ex.leakS, Codec.Ex.fld, fillFieldsWith, fieldPresent, natArgVals, structGx, fillValue, Ex.noGi, h, ih.2]
-    · intro pos
-      simp only [fillTL1, leak_get3]
-      simp [Ex.leakVec, Codec.Ex.fld, natArgVals, rgAt_inc3, randomSize_ones4, fillElemsWith, ih.1]
-
-theorem rgAt_inc (c p : Nat) (h : c < 5) : (Ex.rgAt c p).inc = Ex.rgAt (c + 1) p := by
-  unfold RG.inc Ex.rgAt
-  rw [if_pos (by simp only; omega)]
-
-theorem rgAt_dec (c p : Nat) : (Ex.rgAt (c + 1) p).dec = Ex.rgAt c p := by
-  unfold RG.dec Ex.rgAt
-  rw [if_pos (by simp only; omega)]
-  rfl
-
-/-- lower down nothing saturates: `m` is filled and the depth is what it was -/
-theorem leak_m_low (c : Nat) (hc : c ≤ 3) (f pos : Nat) :
-    fillTL1 Ex.leakD Ex.noGi f 2 [] (Ex.rgAt c pos) = .error .fuel ∨
-    fillTL1 Ex.leakD Ex.noGi f 2 [] (Ex.rgAt c pos) = .ok (Ex.leakM, Ex.rgAt c (pos + 4)) := by
-  have h1 : c < 5 := by omega
-  have h2 : c + 1 < 5 := by omega
-  match f with
-  | 0 => left; rfl
-  | 1 => left; simp [fillTL1, leak_get2, Ex.leakOuter, Codec.Ex.fld, natArgVals, fillElemsWith]
-  | 2 =>
-    left
-    simp [fillTL1, leak_get2, leak_get1, Ex.leakOuter, Ex.leakInner, Codec.Ex.fld, natArgVals, fillElemsWith]
-  | f + 3 =>
-    right
-    simp [fillTL1, leak_get2, leak_get1, leak_get0, Ex.leakOuter, Ex.leakInner, Codec.Ex.fld, natArgVals, fillElemsWith,
-      fillPrim, rgAt_inc c _ h1, rgAt_inc (c + 1) _ h2, rgAt_dec, rgAt_int31, Ex.leakM]
-
-theorem randomSize_ones (c pos : Nat) (h : c < 5) : randomSize (Ex.rgAt c pos) = (1023, Ex.rgAt c (pos + 2)) := by
-  unfold randomSize
-  rw [randomUint_ones c pos h]
-  have : limitVal 4294967295 = 1023 := by decide
-  simp only [this]
-
-/-- one level up: if the struct never fills at depth `c + 1`, it never fills at depth `c ≤ 3` -/
-theorem leak_step (c : Nat) (hc : c ≤ 3)
-    (h : ∀ fuel pos, fillTL1 Ex.leakD Ex.noGi fuel 4 [] (Ex.rgAt (c + 1) pos) = .error .fuel) :
-    ∀ fuel pos, fillTL1 Ex.leakD Ex.noGi fuel 4 [] (Ex.rgAt c pos) = .error .fuel := by
-  intro fuel pos
-  match fuel with
-  | 0 => rfl
-  | fuel + 1 =>
-    simp only [fillTL1, leak_get4]
-    rcases leak_m_low c hc fuel pos with hm | hm
-    · simp [Ex.leakS, Codec.Ex.fld, fillFieldsWith, fieldPresent, natArgVals, structGx, fillValue, Ex.noGi, hm]
-    · have hv : fillTL1 Ex.leakD Ex.noGi fuel 3 [] (Ex.rgAt c (pos + 4)) = .error .fuel := by
-        match fuel with
-        | 0 => rfl
-        | g + 1 =>
-          simp only [fillTL1, leak_get3]
-          simp [Ex.leakVec, Codec.Ex.fld, natArgVals, rgAt_inc c _ (by omega), randomSize_ones (c + 1) _ (by omega),
-            fillElemsWith, h]
-      simp [Ex.leakS, Codec.Ex.fld, fillFieldsWith, fieldPresent, natArgVals, structGx, fillValue, Ex.noGi, hm, hv]
-
-/-- (leak) `leak m:(tuple (tuple int 2) 2) c:(vector leak)` on the all-ones stream: no fuel suffices -/
-theorem fill_diverges_leak : ¬ FillAlwaysTerminates := by
-  intro h
-  obtain ⟨fuel, hf⟩ := h Ex.leakD Ex.noGi 4 Ex.ones
-  apply hf
-  unfold fillRandom
-  rw [newRG_ones]
-  have h4 : ∀ fuel pos, fillTL1 Ex.leakD Ex.noGi fuel 4 [] (Ex.rgAt 4 pos) = .error .fuel := fun f p => (leak_never_fills f).1 p
-  have h3 := leak_step 3 (by decide) h4
-  have h2 := leak_step 2 (by decide) h3
-  have h1 := leak_step 1 (by decide) h2
-  have h0 := leak_step 0 (by decide) h1
-  exact h0 fuel 1
-
-/-- the control: with one tuple level less nothing saturates and the guard of `fill_terminates` holds -/
+/-- the former control, one tuple level less -/
 def Ex.okD : Desc := { insts := #[
   .prim .i32,
   .array { isTuple := true, dynamic := false, count := 2, nparams := 0, elem := Codec.Ex.fld "" 0, hasTL2 := false },
@@ -343,7 +229,6 @@ def Ex.okD : Desc := { insts := #[
   .struct { tag := 0x4, nparams := 0, fields := [ Codec.Ex.fld "m" 1, Codec.Ex.fld "c" 2 ] } ] }
 
 example : Ex.okD.fillGuard Ex.noGi (Ex.okD.computeFillRanks Ex.noGi) allInsts = true := by decide
-example : Ex.leakD.allOnI allInsts (Inst.capFree Ex.leakD Ex.noGi) = false := by decide
 example : Ex.peanoD.allOnI allInsts (Inst.fillRanked Ex.noGi (Ex.peanoD.computeFillRanks Ex.noGi)) = false := by decide
 
 /-! ### validity and determinism -/
